@@ -288,4 +288,8 @@ def scrub(text: str) -> str:
 
 
 def describe_exc(e: BaseException) -> dict[str, str]:
-    return {"type": type(e).__name__, "msg": scrub(str(e))[:400]}
+    try:
+        text = str(e)
+    except BaseException as inner:  # noqa: BLE001 - a broken __str__ in the code under test is an outcome, not a harness error
+        text = f"<str() of the exception raised {type(inner).__name__}: {inner}>"
+    return {"type": type(e).__name__, "msg": scrub(text)[:400]}
